@@ -17,7 +17,9 @@ def run(tier):
               "residue of width mod 4: save as PPM/P7, BMP, PNG (string and FILE* entry points), reference-decode, load back; "
               "about 70 foreign container variants per size (P5/P6/P7 tuple types at 8..64-bit samples, BMP header sizes "
               "40..124, both row orders, 24/32-bit BI_RGB, all 24 BI_BITFIELDS byte-mask permutations); every prefix of "
-              "every file up to 400 bytes (sampled beyond) from exact-size heap buffers under ASan + LSan; "
+              "every file up to 400 bytes (sampled beyond) from exact-size heap buffers under ASan + LSan; PNG save of noise "
+              "images for EVERY (w, h, alpha) in 1..64 x 1..64 (validated in full for small and sampled sizes, and whenever "
+              "save does not return normally); "
               "distinct = (operation, format, alpha, width, width mod 4 / outcome)")
     c.assumptions = ["zlib's uncompress is trusted to expose the PNG scanlines; CRCs, framing and IHDR are judged by the spec",
                      "pixel contents are sampled (random, ramp, extremes), not enumerated",
